@@ -32,6 +32,11 @@ for d in sorted(os.listdir("/verif/seeded")):
             break
     res[d] = {"applies": True, "exit": r.returncode, "detected": r.returncode == 1, "oracle": oracle, "wall_s": round(time.time() - t0, 1)}
     print(d, "DETECTED" if r.returncode == 1 else f"MISSED(exit {r.returncode})", oracle, res[d]["wall_s"], flush=True)
+if only and os.path.exists("/verif/seeded/RESULTS.json"):
+    # a partial re-run updates the stored verdicts instead of replacing them
+    prev = json.load(open("/verif/seeded/RESULTS.json"))["results"]
+    prev.update(res)
+    res = dict(sorted(prev.items()))
 json.dump({"commit_repo": sh("git log --format=%h -1", cwd="/repo").stdout.strip(), "budget_s": budget, "results": res},
           open("/verif/seeded/RESULTS.json", "w"), indent=1)
 n = len(res); k = sum(1 for v in res.values() if v.get("detected"))
